@@ -277,6 +277,9 @@ let replay_aelim ~id (b : itree) (a : itree) (log : Sexp.t list) : unit =
       | _ -> None) log in
   let ab = arena_of b and aa = arena_of a in
   let root = (match b.root with Some r -> r | None -> 0) in
+  (* the assumptions of C03_arena_elim_refines, decided on the dump (C03_arena_ok_sound) and on the logged mirror answers *)
+  if arena_okb ab (nat_of_int root) && List.for_all (function Some [] -> false | _ -> true) mirs
+  then bump "aelim_theorem_assumptions_hold" else bump "aelim_theorem_assumptions_fail";
   match aelim (oracle_of_logs lps mirs) tol ab (nat_of_int root) with
   | None -> bump "aelim_arena_differs"; result id "MIRROR" "aelim-arena" "the arena-level machine panics or runs out of fuel"
   | Some (am, k) ->
